@@ -811,13 +811,18 @@ func genStream(seed uint64, n int, outp string) {
 			out.Line(toks...)
 		}
 		// the other release surfaces: a victim gateway proxy (often with a private key provider) and an asker
-		for i, k := 0, r.Intn(3); i < k; i++ {
+		for i, k := 0, 1+r.Intn(3); i < k; i++ {
 			vns := wire.Pick(r, []string{"ns1", "ns1", "ns2"})
+			// askers: the victim's namespace, the others, the system namespace, and near misses of the victim's namespace:
+			// empty, prefix, suffix, extension, case variant
+			ans := wire.Pick(r, []string{vns, vns, "ns1", "ns2", "istio-system", "", "ns", vns[1:], vns + "x", strings.ToUpper(vns), vns[:1], "istio-system-x"})
+			aclaim := wire.Pick(r, []string{"same", "same", "same", "none", "none", "other"})
 			out.Line("debug", wire.Pick(r, []string{"sotw", "delta"}), vns, wire.Pick(r, []string{"sa1", "sa1", "sa2"}),
 				wire.Pick(r, []string{"~", "cryptomb", "qat", "cryptomb"}), wire.Pick(r, []string{"-", "app=edge", "app=edge,tier=x"}),
 				wire.EncList(dedup(append(wire.Subset(r, nameU, 1, 3), "kubernetes://a"))),
-				wire.Pick(r, []string{vns, vns, "ns1", "ns2", "istio-system"}), wire.Pick(r, []string{"sa1", "sa2", "sa2"}), wire.B(r.Chance(7, 8)),
-				wire.Pick(r, []string{"sds", "sds", "full", "sgdump", "sgdump", "syncz", "sgsyncz", "api", "self"}))
+				wire.Enc(ans), wire.Pick(r, []string{"sa1", "sa2", "sa2"}), wire.B(r.Chance(7, 8)),
+				wire.Pick(r, []string{"sds", "sds", "sds", "full", "sgdump", "sgdump", "syncz", "sgsyncz", "api", "self", "sdscds", "cds", "ndsz", "edsz"}),
+				wire.B(r.Chance(9, 10)), aclaim)
 		}
 	}
 }
@@ -1009,11 +1014,19 @@ type debugOp struct {
 	ans, asa        string
 	atls            bool
 	query           string
+	vtls            bool   // the victim is on a TLS stream (else plaintext: no VerifiedIdentity)
+	aclaim          string // same | none | other: what namespace the asker claims relative to its credential
 }
 
 func decDebug(f []string) debugOp {
 	return debugOp{delta: f[1] == "delta", vns: wire.Dec(f[2]), vsa: wire.Dec(f[3]), vpkp: wire.Dec(f[4]), vlabels: wire.DecList(f[5]),
-		vnames: wire.DecList(f[6]), ans: wire.Dec(f[7]), asa: wire.Dec(f[8]), atls: f[9] == "1", query: f[10]}
+		vnames: wire.DecList(f[6]), ans: wire.Dec(f[7]), asa: wire.Dec(f[8]), atls: f[9] == "1", query: f[10],
+		vtls: len(f) < 12 || f[11] == "1", aclaim: func() string {
+			if len(f) > 12 {
+				return f[12]
+			}
+			return "same"
+		}()}
 }
 
 var debugCounter int
@@ -1100,7 +1113,10 @@ func (h *holdDeltaConn) Send(r *discovery.DeltaDiscoveryResponse) error {
 }
 
 func nodeMeta(ns, sacc string, labels []string, pkp string) *structpb.Struct {
-	fields := map[string]any{"CLUSTER_ID": streamCluster, "NAMESPACE": ns}
+	fields := map[string]any{"CLUSTER_ID": streamCluster}
+	if ns != "" {
+		fields["NAMESPACE"] = ns
+	}
 	if sacc != "" {
 		fields["SERVICE_ACCOUNT"] = sacc
 	}
@@ -1161,7 +1177,11 @@ func (s *streamSUT) runDebug(o debugOp) debugResult {
 	// ---- the victim connects and subscribes
 	srv.Discovery.Authenticators = []security.Authenticator{fakeAuthn{ids: []string{"spiffe://cluster.local/ns/" + o.vns + "/sa/" + o.vsa}}}
 	vobs := &observed{}
-	vbase := baseStream{ctx: peerCtx("tls"), srv: srv.Discovery, obs: vobs, wantID: vid}
+	vpeer := "tls"
+	if !o.vtls {
+		vpeer = "plain"
+	}
+	vbase := baseStream{ctx: peerCtx(vpeer), srv: srv.Discovery, obs: vobs, wantID: vid}
 	vnode := &core.Node{Id: "router~1.2.3.4~" + vid + "~" + o.vns + ".svc.cluster.local", Metadata: nodeMeta(o.vns, o.vsa, o.vlabels, o.vpkp)}
 	ready, release := make(chan struct{}), make(chan struct{})
 	vdone := make(chan error, 1)
@@ -1191,6 +1211,14 @@ func (s *streamSUT) runDebug(o debugOp) debugResult {
 		names = []string{"config_dump?proxyID=" + aid + "&types=sds"}
 	case "syncz":
 		names = []string{"syncz"}
+	case "sdscds":
+		names = []string{"config_dump?proxyID=" + vid + "&types=sds,cds"}
+	case "cds":
+		names = []string{"config_dump?proxyID=" + vid + "&types=cds"}
+	case "ndsz":
+		names = []string{"ndsz?proxyID=" + vid}
+	case "edsz":
+		names = []string{"edsz?proxyID=" + vid}
 	case "sgdump":
 		typeURL, names = pxds.TypeDebugConfigDump, []string{vid}
 	case "sgsyncz":
@@ -1205,7 +1233,18 @@ func (s *streamSUT) runDebug(o debugOp) debugResult {
 	sink := &rawSink{}
 	aready, arelease := make(chan struct{}), make(chan struct{})
 	abase := baseStream{ctx: peerCtx(peerKind), srv: srv.Discovery, obs: &observed{}, wantID: aid, cancel: arelease}
-	anode := &core.Node{Id: "sidecar~1.2.3.5~" + aid + "~" + o.ans + ".svc.cluster.local", Metadata: nodeMeta(o.ans, o.asa, nil, "")}
+	// what the asker claims: its credential's namespace, none at all (then any credential binds), or another namespace
+	claimNs, claimDom := o.ans, o.ans+".svc.cluster.local"
+	switch o.aclaim {
+	case "none":
+		claimNs, claimDom = "", "nodots"
+	case "other":
+		claimNs, claimDom = o.ans+"-other", o.ans+"-other.svc.cluster.local"
+	}
+	if o.ans == "" && o.aclaim == "same" {
+		claimDom = "nodots" // an empty namespace cannot be claimed through the DNS domain either
+	}
+	anode := &core.Node{Id: "sidecar~1.2.3.5~" + aid + "~" + claimDom, Metadata: nodeMeta(claimNs, o.asa, nil, "")}
 	adone := make(chan error, 1)
 	go func() {
 		defer func() {
@@ -1314,8 +1353,26 @@ func (s *streamSUT) oracleDebug(f []string) string {
 	if !o.atls && len(r.certs) > 0 {
 		return "debug-data-to-unauthenticated-stream query=" + o.query
 	}
+	rel := "other-namespace"
+	switch {
+	case !o.atls:
+		rel = "unauthenticated"
+	case o.ans == "":
+		rel = "empty-namespace"
+	case o.ans == "istio-system":
+		rel = "system-namespace"
+	case o.ans == o.vns:
+		rel = "same-namespace"
+	case strings.HasPrefix(o.vns, o.ans) || strings.HasSuffix(o.vns, o.ans) || strings.HasPrefix(o.ans, o.vns) || strings.EqualFold(o.ans, o.vns):
+		rel = "near-miss-namespace"
+	}
+	got := "nothing"
+	if len(r.certs) > 0 {
+		got = "certs"
+	}
+	oracleStats["debug."+o.query+"."+rel+"."+r.outcome+"."+got]++
 	if o.atls && o.ans != "istio-system" && o.ans != o.vns && len(r.certs) > 0 {
-		return "debug-data-across-namespaces query=" + o.query
+		return "debug-data-across-namespaces query=" + o.query + " branch=" + rel
 	}
 	return ""
 }
